@@ -73,11 +73,13 @@ def transformed(op, prog):
     else:
         try:
             apply_real(op, sf)
-            res = ('ok', fir.export_unit(sf, main=fir.prog_main(prog)))
-        except fir.Unsupported as e:
-            res = ('error', 'export:' + e.kind.split()[0])
         except Exception as e:
             res = ('error', 'raise:' + type(e).__name__)
+        else:
+            try:
+                res = ('ok', fir.export_unit(sf, main=fir.prog_main(prog)))
+            except fir.Unsupported as e:
+                res = ('error', 'export:' + e.kind.split()[0])
     if len(_tr_cache) > 4000:
         _tr_cache.clear()
     _tr_cache[key] = res
@@ -581,9 +583,19 @@ def _dec(req):
     op = str(req[1])
     if op not in OPS or str(req[2]) not in ('gf', 'nogf') or _h(req[3]) != 'program':
         raise ValueError('malformed request')
-    for u in req[3][2:]:
-        if _h(u) != 'unit' or len(u) != 5:
+    units = req[3][2:]
+    if not units:
+        raise ValueError('no unit')
+    for u in units:
+        if _h(u) != 'unit' or len(u) != 5 or not all(_h(d) == 'decl' and len(d) == 6 for d in u[3]):
             raise ValueError('malformed unit')
+        declared = {str(d[1]) for d in u[3]}
+        if not all(str(a) in declared for a in u[2]):
+            raise ValueError('undeclared dummy')
+    if str(req[3][1]) not in [str(u[1]) for u in units]:
+        raise ValueError('no main unit')
+    if not isinstance(req[4], list) or not all(isinstance(i, list) for i in req[4]):
+        raise ValueError('malformed inputs')
     return op, str(req[2]) == 'gf', req[3], list(req[4])
 
 
@@ -877,17 +889,38 @@ class C30(Prop):
     findings_module = 'LokiModel.Findings.C30'
     driver = 'Drivers/C30.lean'
     theorems = ['resolve_sound_partial', 'flatten_bijective', 'flatten_bijective_C', 'invert_indices', 'shift_to_zero',
-                'normalize_shift', 'c_pipeline_index', 'offset_eq_flat']
+                'normalize_shift', 'c_pipeline_index', 'offset_eq_flat', 'offset_isSome_iff', 'flatF_one_eq']
     design_ref = 'DESIGN.md 4.F C30'
     level = 'proof'
-    level_text = ''
-    level_note = ''
+    level_text = ('Theorems (Lean kernel). FULL STRENGTH, every rank, all integers: flatten_bijective / flatten_bijective_C (the subscript '
+                  'built by flatten_arrays.new_dims, order F and C, any start_index, lands in [s, s+size), is injective on the declared box and '
+                  'onto), invert_indices (reversing dimension order is a bijection of the boxes), shift_to_zero, normalize_shift (i -> i-1 and '
+                  'i -> i-lo+1 are bijections onto the 0-/1-based box), c_pipeline_index + offset_eq_flat + offset_isSome_iff (the composite '
+                  'normalise/invert/shift/flatten(C,0) subscript is the column-major offset the FIR semantics itself uses). '
+                  'PARTIAL: resolve_sound_partial — statement level, rank 1: for every state without ASSOCIATE names that fits the declarations and every '
+                  'section assignment a(lo:hi:step) = rhs whose right-hand side is in the decidable class covE (does not read a or the loop '
+                  'variable; sections only of other rank-1 arrays with the same stride expression and lower bound = lhs lower bound or integer literal; '
+                  'lo/step scalar expressions), the DO loop the MODEL of ResolveVectorNotationTransformer emits (loop variable from loop_map or i_a_0, '
+                  'offset arithmetic v - lo + lo\') finishes and agrees with the array assignment on output and on every variable but the loop '
+                  'variable. Missing: ranks > 1, the identical-section case a(l:u) = f(a(l:u)), whole-array operands, lifting through enclosing statements '
+                  '(needs the loop variable dead/not enclosing: class KnownLoopVarReuse). Everything else (all ranks, all 8 ops incl. both pipelines) is '
+                  'covered by correspondence (model = real transformation, program for program) and by the execution oracle on the real output.')
+    level_note = ('Model hand-written from vector_notation.py / array_indices.py; simplify is not modelled (index expressions compared as polynomials); '
+                  'WHERE, derived-type bounds, vector subscripts, resolve_vector_dimension, LowerConstantArrayIndices not modelled; normalize_range_indexing '
+                  'is invisible in FIR (a(1:n) and a(n) export alike). FIR semantics (Sem.lean) is the reference for Fortran; gfortran ties it in the thorough tier. '
+                  'invert / shift0 / pipec change the storage convention on purpose: the oracle runs the transformed program with transposed inputs / '
+                  'bounds shifted by -1 / 0-based flat declarations, which is exactly what the bijection theorems justify.')
     technique = ('Lean 4 theorems about a hand-written model of the transformations on mini-Fortran programs and about the FIR '
                  'semantics + correspondence of the model with the real transformations + execution oracle (Python FIR interpreter, gfortran)')
-    rule = ''
+    rule = ('generated routines: template generator (2-4 integer arrays, rank 1-3, lower bounds 1/0/-2/2, literal or symbolic extents, '
+            'section assignments with controlled counts, strides 1/2/-1/-2, overlap with the assigned array, whole-array and half-open forms, '
+            'explicit loop nests that populate loop_map, sections inside loops) and the shared FIR generator biased to sections; 3 input sets each; '
+            '8 ops; non-trivial = has an array assignment (resolving ops) ; distinct by program+op')
     trusted_base = ['harness/fir.py (printer, exporter Loki IR -> FIR, reference interpreter, gfortran runner)',
                     'lean/LokiModel/Fir/Sem.lean as the reference semantics of mini-Fortran', 'gfortran 12 (thorough tier)']
-    assumptions = []
+    assumptions = ['FIR subset of Fortran (no WHERE, derived types, allocatables, vector subscripts)',
+                   'integer arithmetic exact (generated values stay far below 2^31)',
+                   'resolve_sound_partial: state has no ASSOCIATE names in force and fits the declarations; loop variable is an integer scalar cell']
     extra_obligations = ['oracle: original vs really transformed program on generated input sets (interpreter; gfortran in the thorough tier)']
 
     def classes(self):
@@ -895,7 +928,7 @@ class C30(Prop):
 
     # ---------------------------------------------------------------- generation
     def gen(self, rng, tier):
-        n = {'quick': 1.0, 'thorough': 6.0, 'search': 2.5}.get(tier, 1.0)
+        n = {'quick': 0.7, 'thorough': 6.0, 'search': 2.5}.get(tier, 0.7)
         plan = [  # (op, source, count at scale 1)
             ('resolve', 'tmpl-vec', 34), ('resolve', 'fir-resolve', 10),
             ('pipef', 'tmpl-vec', 8), ('pipec', 'tmpl-vec', 8), ('pipec', 'tmpl-elem', 4),
